@@ -74,7 +74,7 @@ CLAIMED = {
               "kept basis, dense solver per the hermitian flag, each Ritz vector combines the kept basis with the column paired to its value, "
               "lin_solver returns guess + basis.pinv(T) and the norm of f(vf) - b of the vector it returns."),
         design_ref='DESIGN.md §5 C18',
-        note="Trusted: pyvc, z3 (nonlinear real arithmetic), the ghost contracts of callees (norm >= 0, expm returns reals, norm_matrix > 0), log/pow/ceil/floor abstracted by order facts. NOT decided: agreement of expmv/eigs/lin_solver with dense expm/eig/solve (floating point); termination.",
+        note="Trusted: pyvc, z3 (nonlinear real arithmetic), the ghost contracts of callees (norm >= 0, expm returns reals, norm_matrix > 0), log/pow/ceil/floor abstracted by order facts. NOT decided: agreement of expmv/eigs/lin_solver with dense expm/eig/solve (floating point); termination. BOUNDED (never counted as proved): contracts/krylov_bounded.py compares expmv / eigs / lin_solver with scipy.linalg.expm and numpy.linalg on maps built from random symmetric operators (4 symmetries, Hermitian and not, real and complex, t in {0, 0.3, -0.7, 2j, 0.5+0.5j, -6 / 25j}, ncv 3 and 10, all `which`, k = 1, 2, with and without initial guess). Known findings F30 (eigs with ncv above the sector dimension returns spurious Ritz pairs) and F31 (expmv livelock with ncv above min(30, v.size)) are listed, not repaired (a cap by v.size was tried and withdrawn: it breaks runs started from product states).",
         technique='symbolic execution over reals with an inductive loop invariant (establish/preserve/use) on the real controller; ghost-object contracts for callees',
     ),
     'C19': dict(
@@ -149,7 +149,7 @@ CLAIMED = {
               "contract_with_unroll: slicing a contracted or an open index (per sector, inside sectors, uniform sizes, two indices) leaves the dense "
               "value equal to the plain contraction and to numpy (concrete three-tensor chain per symmetry, symbolic data)."),
         design_ref='DESIGN.md §5 C14',
-        note=TRUST + "Equality of dense VALUES across policies is proved in C01 part B. Path search (opt_einsum) and checkpointing of contract_with_unroll are outside.",
+        note=TRUST + "Equality of dense VALUES across policies is proved in C01 part B. Path search (opt_einsum) and checkpointing of contract_with_unroll are outside. Also: results independent of default_fusion / force_fusion (h_fusion_mode_values), contraction shapes with three legs in cyclic order, contract_with_unroll over both pairwise paths and with a fused output leg (one genuine defect found and fixed: the partial result lost its pending transpose and fusion).",
         technique='relational symbolic execution of the real code paths selected by the configuration knobs; z3',
     ),
     'C04': dict(
@@ -209,7 +209,7 @@ CLAIMED = {
               "(spin-1/2 dense/Z2, spinless fermions Z2/U1). BOUNDED (not counted as proved): on-site algebra and to_dict of every predefined "
               "operator class in every symmetry."),
         design_ref='DESIGN.md §5 C07',
-        note="Trusted: pyvc, z3. NOT decided: that the real SVD compression (tol 1e-13) inside generate_mpo is lossless, Generator/latex2term parsing, rdm, sampling; the value parts are bounded in structure; the operator-algebra check is an exhaustive floating-point evaluation, labelled bounded. Two genuine defects found and fixed (position N accepted; IndexError for a vanishing on-site product).",
+        note="Trusted: pyvc, z3. NOT decided: that the real SVD compression (tol 1e-13) inside generate_mpo is lossless, Generator/latex2term parsing, rdm, sampling; the value parts are bounded in structure; the operator-algebra check is an exhaustive floating-point evaluation, labelled bounded. Two genuine defects found and fixed (position N accepted; IndexError for a vanishing on-site product). rdm is proved against Jordan-Wigner expectation values for every order of the sites and with the norm factor (one genuine defect found and fixed: rdm ignored psi.factor). BOUNDED (never counted as proved): contracts/measure_bounded.py -- LaTeX-style Generator strings (nine shapes x four families) against explicit Jordan-Wigner sums, Born probabilities reported by sample(), dtype of generate_mpo for complex operators / NumPy complex amplitudes (defect found and fixed). Known finding F32 (summation index named like an operator) listed.",
         technique='symbolic execution of the real measurement drivers against ghost-environment (operator placement) contracts; finite exhaustive check of the bond-pattern parser',
     ),
     'C08': dict(
@@ -258,7 +258,7 @@ CLAIMED = {
               "ends without central block. Values of the effective Hamiltonians (Heff0/1/2, with and without precompute) and environment refresh: "
               "shared with C09."),
         design_ref='DESIGN.md §5 C10',
-        note="Trusted: pyvc, z3, ghost contracts (expmv applies the map and returns an evolved tensor). Floats as reals. NOT decided by proof: norm/energy conservation, charge sector, exactness on the full manifold, convergence order (floating point); for these a BOUNDED native stand-in (contracts/alg_bounded.py: N = 3..4, u = i, 1, 0.6+0.8i, all methods and orders, against scipy.linalg.expm and an ODE reference) runs with every check and is never counted as proved. One genuine defect found and fixed (zero steps for intervals below 1e-12).",
+        note="Trusted: pyvc, z3, ghost contracts (expmv applies the map and returns an evolved tensor). Floats as reals. NOT decided by proof: norm/energy conservation, charge sector, exactness on the full manifold, convergence order (floating point); for these a BOUNDED native stand-in (contracts/alg_bounded.py: N = 3..4, u = i, 1, 0.6+0.8i, all methods and orders, against scipy.linalg.expm and an ODE reference) runs with every check and is never counted as proved. Two genuine defects found and fixed (zero steps for intervals below 1e-12; the initial state was not canonized although documented -- now a postcondition of the driver: canonical towards first at every sweep, canonization with the requested normalisation, a canonical state left alone). A change that removes clear_site_ from the 1-site sweep is caught by the bounded stand-in only (precompute caches are not modelled by the ghost environment).",
         technique='symbolic execution over reals with an inductive invariant for the stepping loop; ghost-state protocol contracts for the sweeps',
     ),
     'C13': dict(
